@@ -206,7 +206,7 @@ def truncate(Y, e=1.E-10, r=1.E+12, orth=True, use_stab=False, is_eigh=True):
         if is_eigh:
             U, V = teneva.matrix_svd(G, e, r)
         else:
-            U, V = teneva.matrix_skeleton(G, e, r, rel=False, give_to='r')
+            U, V = teneva.matrix_skeleton(G, e, r, rel=False, give_to='l')
         Z[k] = teneva._reshape(V, (-1, n, r2))
         Z[k-1] = np.einsum('ijq,ql', Z[k-1], U, optimize=True)
 
